@@ -112,14 +112,14 @@ class Ctx:
         self.instances.append(inst)
         return inst
 
-    def holds(self, f: Optional[FuncInfo], node: Optional[ast.AST], construct: str, **kw: Any) -> Instance:
-        return self._add(HOLDS, f, node, construct, **kw)
+    def holds(self, f: Optional[FuncInfo], node: Optional[ast.AST], construct: str, expected: str = "", found: str = "", **kw: Any) -> Instance:
+        return self._add(HOLDS, f, node, construct, expected, found, **kw)
 
     def violated(self, f: Optional[FuncInfo], node: Optional[ast.AST], construct: str, expected: str, found: str, **kw: Any) -> Instance:
         return self._add(VIOLATED, f, node, construct, expected, found, **kw)
 
-    def unrec(self, f: Optional[FuncInfo], node: Optional[ast.AST], construct: str, why: str, **kw: Any) -> Instance:
-        return self._add(UNREC, f, node, construct, "", why, **kw)
+    def unrec(self, f: Optional[FuncInfo], node: Optional[ast.AST], construct: str, why: str, found: Optional[str] = None, **kw: Any) -> Instance:
+        return self._add(UNREC, f, node, construct, why if found is not None else "", found if found is not None else why, **kw)
 
     def check(self, ok: bool, f: Optional[FuncInfo], node: Optional[ast.AST], construct: str, expected: str, found: str, **kw: Any) -> Instance:
         if ok:
